@@ -42,6 +42,11 @@ impl InferenceRule for MappingAccessRule {
             let Some(bit_offset) = projection.unwrap_or(0).checked_mul(WORD_SIZE_BITS) else {
                 return Ok(());
             };
+
+            // Nor does one whose word would end beyond what can be expressed
+            if bit_offset.checked_add(WORD_SIZE_BITS).is_none() {
+                return Ok(());
+            }
             let key_tv = state.var_unchecked(key);
             let original_val_ty = state.var_unchecked(value);
             let val_ty = unsafe { state.allocate_ty_var() };
